@@ -135,7 +135,9 @@ func newUploader(rcfg RunConfig) (*uploader, error) {
 	// Set the start time, if it is not provided.
 	startTime := time.Now().UTC()
 	if !rcfg.StartTime.IsZero() {
-		startTime = rcfg.StartTime
+		// Weeks are named by UTC dates: "today" must not depend on the
+		// location the caller's time value happens to carry.
+		startTime = rcfg.StartTime.UTC()
 	}
 
 	return &uploader{
